@@ -298,6 +298,11 @@ LensR(p, pre, m, f, o, r) ==
     [] p = "C20" -> o.res # "panic"
 
 Lens(p, pre, m, f, o) == LensR(p, pre, m, f, o, Run(pre, m, f))
+\* full conformance with the specification (stricter than any listed property: order of checks, admin event
+\* payloads, behaviour where the properties are silent); reported as a NOTE, never as a violation
+Diverges(pre, m, f, o) ==
+  LET r == Run(pre, m, f) IN
+  ~(ResOf(o) = r.out.res /\ o.post = r.post /\ o.evs = r.out.evs /\ o.calls = r.out.calls /\ o.resp = r.out.resp)
 Fails(pre, m, f, o)   == LET r == Run(pre, m, f) IN
                          {p \in PropIds : Applies(p, pre, m, f, o) /\ ~LensR(p, pre, m, f, o, r)}
 Applied(pre, m, f, o) == {p \in PropIds : Applies(p, pre, m, f, o)}
